@@ -37,6 +37,16 @@ impl Recorder {
             r.headers.insert(hyper::header::HeaderName::from_bytes(n.as_bytes()).unwrap(), v.parse().unwrap());
             return Ok(r);
         }
+        if let Some(h) = mode.strip_prefix("ok_header2:") {
+            // one header name attached with several values (HeaderMap::append), separated by '|'
+            let (n, vs) = h.split_once('=').unwrap();
+            let mut r = s3s::S3Response::new(O::default());
+            for v in vs.split('|') {
+                r.headers.append(hyper::header::HeaderName::from_bytes(n.as_bytes()).unwrap(), v.parse().unwrap());
+            }
+            r.headers.insert(hyper::header::HeaderName::from_static("x-single"), "s".parse().unwrap());
+            return Ok(r);
+        }
         if let Some(code) = mode.strip_prefix("err:") {
             let c = s3s::S3ErrorCode::from_bytes(code.as_bytes()).unwrap_or(s3s::S3ErrorCode::InternalError);
             return Err(s3s::S3Error::with_message(c, "backend error"));
@@ -127,6 +137,11 @@ pub fn meta(a: &[String]) -> Value {
     } else if let Some(h) = mode.strip_prefix("ok_header:") {
         let (n, v) = h.split_once('=').unwrap();
         (o.headers.iter().any(|(hn, hv)| hn == n && hv == v), format!("header {n}: {v} attached by the backend"))
+    } else if let Some(h) = mode.strip_prefix("ok_header2:") {
+        let (n, vs) = h.split_once('=').unwrap();
+        let want: Vec<&str> = vs.split('|').collect();
+        let got: Vec<&str> = o.headers.iter().filter(|(hn, _)| hn == n).map(|(_, v)| v.as_str()).collect();
+        (got == want && o.headers.iter().any(|(hn, hv)| hn == "x-single" && hv == "s"), format!("header {n} with the values {want:?} (all of them, in order) and x-single: s, as attached by the backend"))
     } else if let Some(code) = mode.strip_prefix("err:") {
         (o.body.contains(&format!("<Code>{code}</Code>")), format!("S3 error document with code {code}"))
     } else {
@@ -274,3 +289,8 @@ pub fn host_style() -> Value {
     json!({"violates": first_bad.is_some(), "input": {"request": "GET /bkt/key", "host": first_bad, "service": "base domain example.com"},
            "expected": "path-style: get_object with bucket bkt and key key", "observed": all, "replay_args": ["host-style"]})
 }
+
+thread_local! { static LAST_INPUT: std::cell::RefCell<String> = const { std::cell::RefCell::new(String::new()) }; }
+/// `{:?}` of the typed input of the last request sent by sigv4::send_body_framed
+pub fn set_last_input(s: String) { LAST_INPUT.with(|c| *c.borrow_mut() = s); }
+pub fn last_input() -> String { LAST_INPUT.with(|c| c.borrow().clone()) }
